@@ -330,6 +330,7 @@ func TestC19(t *testing.T) {
 				return len(xs)
 			})
 			ss := []string{"p", "q"}
+			heapKeep19 = ss // the elements live on the heap; slices kept in the caller's frame are the out-parameter sweep's business
 			rec("T.MV -> %d %d %d ss[0]=%s", (&T{}).MV(), (&T{}).MV("x"), (&T{}).MV(ss...), ss[0])
 			b.Struct(T{}).Method("V").Return(k)
 			rec("methods -> %d %d", (&T{v: 3}).M(k, "m"), T{v: 4}.V(1))
@@ -386,27 +387,28 @@ func TestC19(t *testing.T) {
 	// is moved at different points of the call): the callback's writes must arrive in the caller's variables
 	{
 		b := mocker.Create()
-		b.Func(FOut).Apply(func(p *int, q *[4]int64, a int) int {
+		b.Func(FOut).Apply(func(p *int, q *[4]int64, a int, xs ...int16) int {
 			burn(20) // the callback itself needs stack
 			*p = a + 1
 			q[3] = int64(a + 2)
+			xs[1] = int16(a + 4)
 			return a + 3
 		})
 		sweep := vmon.EnvInt("VERIF_C19_SWEEP", 260)
 		lostOnGrowth, otherWrong := 0, 0
 		var lostAt []int
 		for d := 0; d < sweep; d++ {
-			done := make(chan [2][3]int)
+			done := make(chan [2][4]int)
 			go func() {
-				var out [2][3]int
+				var out [2][4]int
 				descend19(d, func() { out[0] = callFOut(d); out[1] = callFOut(d) })
 				done <- out
 			}()
 			o := <-done
-			want := [3]int{d + 1, d + 2, d + 3}
+			want := [4]int{d + 1, d + 2, d + 3, d + 4}
 			switch {
 			case o[0] == want && o[1] == want:
-			case o[0] == [3]int{0, 0, d + 3} && o[1] == want:
+			case o[0] == [4]int{0, 0, d + 3, 0} && o[1] == want:
 				// the callback ran with the right scalar argument and returned, but both writes through the pointers
 				// went elsewhere; the same call repeated on the (now grown) stack is right
 				lostOnGrowth++
@@ -439,15 +441,20 @@ func TestC19(t *testing.T) {
 // FOut lets neither pointer escape: callers keep the pointees in their own frames.
 //
 //go:noinline
-func FOut(p *int, q *[4]int64, a int) int { return -8 - *p*0 - int(q[0])*0 }
+func FOut(p *int, q *[4]int64, a int, xs ...int16) int {
+	return -8 - *p*0 - int(q[0])*0 - int(xs[0])*0
+}
 
 //go:noinline
-func callFOut(a int) [3]int {
+func callFOut(a int) [4]int {
 	var x int
 	var arr [4]int64
-	r := FOut(&x, &arr, a)
-	return [3]int{x, int(arr[3]), r}
+	var vs [3]int16 // the variadic slice's elements live in this frame too
+	r := FOut(&x, &arr, a, vs[:]...)
+	return [4]int{x, int(arr[3]), r, int(vs[1])}
 }
+
+var heapKeep19 []string
 
 //go:noinline
 func descend19(d int, f func()) int {
